@@ -48,7 +48,7 @@ type effects struct {
 	e     *Exec // for leafFamilies helpers
 }
 
-var benignExternal = []string{"fmt.", "errors.", "strconv.", "time.", "strings.", "os.", "math.", "math/bits.", "unicode/utf8.", "runtime.", "log.", "encoding/base64.", "crypto/sha1.", "net.", "net/http.", "net/url.", "bufio.", "sync.", "sync/atomic.", "reflect.", "sort.", "bytes.", "io.", "crypto/"}
+var benignExternal = []string{"syscall.", "golang.org/x/sys/unix.", "fmt.", "errors.", "strconv.", "time.", "strings.", "os.", "math.", "math/bits.", "unicode/utf8.", "runtime.", "log.", "encoding/base64.", "crypto/sha1.", "net.", "net/http.", "net/url.", "bufio.", "sync.", "sync/atomic.", "reflect.", "sort.", "bytes.", "io.", "crypto/"}
 
 func isBenignExternal(key string) bool {
 	k := strings.TrimPrefix(key, "(")
